@@ -27,10 +27,10 @@ Definition eval02 (e : sexp) : verdict :=
         match parse_ty tys, parse_val xs, parse_val ys with
         | Some t, Some x, Some y =>
             let typed := (has_type [] t x && has_type [] t y)%bool in
-            (* the model with the generator's method dispatch; it is the model of EqualProofs
-               on types without user methods, where structural equality is the specification;
+            (* types without user methods: the model the theorems are about, and structural
+               equality as the specification; otherwise the model with the generator's method dispatch;
                at components with an Equal method the specification is the method's answer *)
-            let m := eqm_m [] Top t x y in
+            let m := if method_free t then equal_model t x y else eqm_m [] Top t x y in
             let s := if method_free t then lift (spec_eq [] t x y) else m in
             let inguard := typed in
             {| v_known := typed;
